@@ -143,6 +143,8 @@ def check_std(chk, cfg, r, c02_cases, err_cases):
     if len(r["birth"]) != n_ret or not all(b < l for b, l in zip(r["birth"], S["logL"])):
         bad = [(i, b, l) for i, (b, l) in enumerate(zip(r["birth"], S["logL"])) if not b < l][:3]
         fails.append(("C05:std-birth", f"birth likelihood not strictly below the sample's likelihood at {bad}"))
+    if r.get("unstable"):
+        fails.append(("C05:std-read-mutates", f"reported results changed after merely reading the public properties of the sampler: {r['unstable'][:6]}"))
     if r.get("dict_error"):
         fails.append(("C05:std-dict-raised", f"get_result_dictionary raised: {r['dict_error'][:200]}"))
     elif r.get("dict"):
@@ -184,6 +186,8 @@ def check_ins(chk, cfg, r, ins_cases):
     S = r["samples"]
     n_ret, total = len(S["logL"]), sum(r["counts"].values())
     fails = []
+    if r.get("unstable"):
+        fails.append(("C05:ins-read-mutates", f"reported results changed after merely reading the public properties of the sampler: {r['unstable'][:6]}"))
     if r.get("dict_error"):
         fails.append(("C05:ins-dict-raised", f"get_result_dictionary raised after sampling: {r['dict_error'][-300:]}"))
     d = r.get("dict")
